@@ -40,6 +40,12 @@ type c09All struct {
 	Hashes    []control.SHA256FileHash `control:"Checksums-Sha256" delim:"\n" strip:"\n\r\t "`
 	Text      string
 	Multi     string `multiline:"true"`
+	// lists of numbers, a named string type, a second bool (the first list kinds
+	// are strings and custom types)
+	Ints   []int    `control:"X-Ints" delim:" "`
+	Uints  []uint   `control:"X-Uints" delim:", "`
+	Named  c09Named `control:"X-Named"`
+	Second bool     `control:"X-Second"`
 	// skipped fields may be of any kind: nothing is ever asked of them
 	SkipMap   map[string]int  `control:"-"`
 	SkipTime  time.Time       `control:"-"`
@@ -47,6 +53,9 @@ type c09All struct {
 	SkipFloat float64         `control:"-"`
 	skipInner struct{ x int } `control:"-"`
 }
+
+// c09Named is a named string type (kind String, not type string).
+type c09Named string
 
 // c09Pass embeds the raw paragraph: unknown fields must pass through.
 type c09Pass struct {
@@ -125,6 +134,16 @@ func genC09All(t *rt.Tape, r *rt.Run) c09Model {
 		v.U = 0
 	}
 	v.B = t.Bool(1, 2, "c09.b")
+	v.Second = t.Bool(1, 2, "c09.second")
+	for i, n := 0, t.Draw(4, "c09.nints"); i < n; i++ {
+		v.Ints = append(v.Ints, t.Draw(2001, "c09.int")-1000)
+	}
+	for i, n := 0, t.Draw(4, "c09.nuints"); i < n; i++ {
+		v.Uints = append(v.Uints, uint(t.Draw(1<<20, "c09.uint")))
+	}
+	if t.Bool(1, 2, "c09.named") {
+		v.Named = c09Named(genFrom(t, lowerAlnum, 1, 8, "c09.namedv"))
+	}
 	v.ListSp = genTokens(t, "c09.lsp", t.Draw(4, "c09.nlsp"), lowerAlnum+"-.,")
 	v.ListComma = genTokens(t, "c09.lcm", t.Draw(4, "c09.nlcm"), lowerAlnum+"- .")
 	for i := range v.ListComma {
@@ -238,6 +257,18 @@ func c09Diff(got *c09All, m *c09Model) (field, msg string) {
 	}
 	if got.B != w.B {
 		return "B", fmt.Sprintf("got %v want %v", got.B, w.B)
+	}
+	if got.Second != w.Second {
+		return "Second", fmt.Sprintf("got %v want %v", got.Second, w.Second)
+	}
+	if fmt.Sprint(got.Ints) != fmt.Sprint(w.Ints) && (len(got.Ints) != 0 || len(w.Ints) != 0) {
+		return "Ints", fmt.Sprintf("got %v want %v", got.Ints, w.Ints)
+	}
+	if fmt.Sprint(got.Uints) != fmt.Sprint(w.Uints) && (len(got.Uints) != 0 || len(w.Uints) != 0) {
+		return "Uints", fmt.Sprintf("got %v want %v", got.Uints, w.Uints)
+	}
+	if got.Named != w.Named {
+		return "Named", fmt.Sprintf("got %q want %q", got.Named, w.Named)
 	}
 	for _, c := range []struct {
 		n    string
